@@ -9,7 +9,7 @@
 
   Trees are DAGs in a heap: a node is identified by a `NodeId` (the C++ pointer `Tree::Id`), the
   heap maps ids to `Node` records.  The format knows no remap/apply: `Tree::walk` flattens first, so
-  the model serialises *flattened* DAGs (the harness hands the model `t.flatten()`).
+  the model serialises *flattened* DAGs; `serializeFlat` takes the flattening as a parameter.
 -/
 import LibfiveModel.Op
 
@@ -188,6 +188,14 @@ def serialize (heap : NodeId → Node) (fuel : Nat) (shapes : List Shape) : Exce
   match serShapes heap fuel [] shapes with
   | .error e => .error e
   | .ok (b, _) => .ok b
+
+/-- `Archive::serialize` for shapes whose trees may still contain remap/apply (after fix 7cbf398):
+    `serializeShape` replaces the tree by `s.tree.flatten()` — kept alive next to the address-keyed id
+    table — before anything else looks at it.  `flat` is that function on node ids (C07's subject);
+    remap-free trees are their own flattening. -/
+def serializeFlat (heap : NodeId → Node) (flat : NodeId → NodeId) (fuel : Nat) (shapes : List Shape) :
+    Except SErr (List Byte) :=
+  serialize heap fuel (shapes.map fun s => { s with tree := flat s.tree })
 
 /-! ## istream side -/
 
@@ -469,31 +477,39 @@ def varsInsert (vars : List (NodeId × List Byte)) (id : NodeId) (name : List By
   if vars.any (·.1 == id) then vars.map (fun p => if p.1 == id then (id, name) else p)
   else vars ++ [(id, name)]
 
-/-- the `while (!in.eof())` variable loop -/
+/-- `in.peek()`: `none` is `traits::eof()` (the end of the data sets eofbit) -/
+def IStream.peek (s : IStream) : Option Byte × IStream :=
+  if s.eof then (none, s)
+  else match s.data with
+    | [] => (none, { s with eof := true })
+    | b :: _ => (some b, s)
+
+/-- the `while (!in.eof())` variable loop (after fix 38f63f2: the END_OF_ITEM test only *peeks*,
+    so the opening quote of the name is still there for `deserializeString`) -/
 def varLoop : Nat → DState → List (NodeId × List Byte) → Res (List (NodeId × List Byte))
   | 0, st, _ => stop st .fuel
   | fuel + 1, st, vars =>
     if st.inp.eof then .ok (vars, st)
     else
-      let (b, inp) := st.inp.get
-      let st := { st with inp := inp }
-      match b with
-      | none => stop st .indeterminate       -- `op_` is uninitialised and decides what happens next
+      let pk := st.inp.peek
+      let st := { st with inp := pk.2 }
+      match pk.1 with
+      | none => .ok (vars, st)                 -- `else if (in.eof()) break`
       | some b =>
-        if b = END_OF_ITEM then .ok (vars, st)
+        if b = END_OF_ITEM then .ok (vars, { st with inp := st.inp.get.2 })   -- `in.get(); break`
         else
-          let (name, inp, es) := readString st.inp
-          let st := ({ st with inp := inp }).says es
-          let (idx, inp) := st.inp.readU32
-          let st := { st with inp := inp }
-          match idx with
+          let r := readString st.inp
+          let st := ({ st with inp := r.2.1 }).says r.2.2
+          let w := st.inp.readU32
+          let st := { st with inp := w.2 }
+          match w.1 with
           | none => stop st .indeterminate
           | some idx =>
             match treeAt st idx.toNat with
             | none => stop (st.say .varIdx) .indeterminate   -- `t->second` on `trees.end()`
             | some id =>
               let st := if vars.any (·.1 == id) then st.say .varDup else st
-              varLoop fuel st (varsInsert vars id name)
+              varLoop fuel st (varsInsert vars id r.1)
 
 /-- `Deserializer::deserializeShape` -/
 def readShape (F : Folder) (tag : Byte) (st : DState) : Res LShape :=
@@ -549,6 +565,88 @@ def readShapes (F : Folder) : Nat → DState → Res (List LShape)
 def deserialize (F : Folder) (bytes : List Byte) : Res (List LShape) :=
   readShapes F (bytes.length + 1) { inp := { data := bytes } }
 
+/-! ## The reader before fix 38f63f2 (historical; only `archive_roundtrip_failed_before_fix` uses it) -/
+
+/-- the variable loop as it was before 38f63f2: the END_OF_ITEM test *consumed* a byte -/
+def varLoopOld : Nat → DState → List (NodeId × List Byte) → Res (List (NodeId × List Byte))
+  | 0, st, _ => stop st .fuel
+  | fuel + 1, st, vars =>
+    if st.inp.eof then .ok (vars, st)
+    else
+      let (b, inp) := st.inp.get
+      let st := { st with inp := inp }
+      match b with
+      | none => stop st .indeterminate       -- `op_` is uninitialised and decides what happens next
+      | some b =>
+        if b = END_OF_ITEM then .ok (vars, st)
+        else
+          let (name, inp, es) := readString st.inp
+          let st := ({ st with inp := inp }).says es
+          let (idx, inp) := st.inp.readU32
+          let st := { st with inp := inp }
+          match idx with
+          | none => stop st .indeterminate
+          | some idx =>
+            match treeAt st idx.toNat with
+            | none => stop (st.say .varIdx) .indeterminate   -- `t->second` on `trees.end()`
+            | some id =>
+              let st := if vars.any (·.1 == id) then st.say .varDup else st
+              varLoopOld fuel st (varsInsert vars id name)
+
+/-- `Deserializer::deserializeShape` before 38f63f2 -/
+def readShapeOld (F : Folder) (tag : Byte) (st : DState) : Res LShape :=
+  let st := st.checkPos
+  let st := if tag = TAG_FULL ∨ tag = TAG_REF then st else st.say .tag
+  let (name, inp, es) := readString st.inp
+  let st := ({ st with inp := inp }).says es
+  let st := st.checkPos
+  let (doc, inp, es) := readString st.inp
+  let st := ({ st with inp := inp }).says es
+  let fuel := st.inp.data.length + 1
+  if tag = TAG_REF then
+    let (root, inp) := st.inp.readU32
+    let st := { st with inp := inp }
+    match root with
+    | none => stop st .indeterminate
+    | some root =>
+      match treeAt st root.toNat with
+      | none => stop st .outOfRange
+      | some t =>
+        match varLoopOld fuel st [] with
+        | .error e => .error e
+        | .ok (vars, st) => .ok ({ tree := t, name := name, doc := doc, vars := vars }, st)
+  else
+    match clauseLoop F fuel st with
+    | .error e => .error e
+    | .ok (true, st) => .ok ({ tree := idInvalid, name := name, doc := doc, vars := [] }, st)
+    | .ok (false, st) =>
+      match st.trees.getLast? with        -- trees.at(trees.size() - 1)
+      | none => stop st .outOfRange
+      | some t =>
+        match varLoopOld fuel st [] with
+        | .error e => .error e
+        | .ok (vars, st) => .ok ({ tree := t, name := name, doc := doc, vars := vars }, st)
+
+/-- `Deserializer::run` before 38f63f2 -/
+def readShapesOld (F : Folder) : Nat → DState → Res (List LShape)
+  | 0, st => stop st .fuel
+  | fuel + 1, st =>
+    let (tag, inp) := st.inp.get           -- in.get(tag)
+    let st := { st with inp := inp }
+    match tag with
+    | none => .ok ([], st)
+    | some tag =>
+      match readShapeOld F tag st with
+      | .error e => .error e
+      | .ok (s, st) =>
+        match readShapesOld F fuel st with
+        | .error e => .error e
+        | .ok (ss, st) => .ok (s :: ss, st)
+
+/-- `Archive::deserialize` before 38f63f2 -/
+def deserializeOld (F : Folder) (bytes : List Byte) : Res (List LShape) :=
+  readShapesOld F (bytes.length + 1) { inp := { data := bytes } }
+
 /-! ## Hypotheses of the round-trip theorems, as executable checks -/
 
 /-- no load-time rewrite of `Tree::unary/binary` fires when node `n` is rebuilt from its operands
@@ -571,12 +669,16 @@ def rootLastB (heap : NodeId → Node) (fuel : Nat) (root : NodeId) : Bool :=
   let w := walk heap fuel root
   w.getLast? == some root && !(w.dropLast.contains root)
 
-/-- hypotheses of `archive_roundtrip_partial` on one shape: no variable names, every node of the
-    walk is a fixed point of the loader's constructors, the root comes last -/
-def shapeOKb (heap : NodeId → Node) (fuel : Nat) (s : Shape) : Bool :=
-  s.vars.isEmpty && (walk heap fuel s.tree).all (nodePlain heap) && rootLastB heap fuel s.tree
+def nodupB : List NodeId → Bool
+  | [] => true
+  | a :: r => !(r.contains a) && nodupB r
 
-/-- all hypotheses of `archive_roundtrip_partial` except `AxesUnique` (checked over the given ids) -/
+/-- hypotheses of `archive_roundtrip` on one shape: the keys of the `std::map` of variable names are
+    distinct, every node of the walk is a fixed point of the loader's constructors, the root comes last -/
+def shapeOKb (heap : NodeId → Node) (fuel : Nat) (s : Shape) : Bool :=
+  nodupB (s.vars.map (·.1)) && (walk heap fuel s.tree).all (nodePlain heap) && rootLastB heap fuel s.tree
+
+/-- all hypotheses of `archive_roundtrip` except `AxesUnique` (checked over the given ids) -/
 def archiveCanon (heap : NodeId → Node) (fuel : Nat) (shapes : List Shape) : Bool :=
   match serShapes heap fuel [] shapes with
   | .ok (_, ids) => shapes.all (shapeOKb heap fuel) && axesUnique heap ids && ids.length < 4294967296
